@@ -53,7 +53,7 @@ var C02 = mk("C02",
 		"every step compares the whole persistent state of twin and implementation. Non-trivial = at least one write happened; distinct = distinct script.",
 	base, 150, 5000, monitorC02)
 
-var conv = Profile{Targets: 2, Sets: 5, Faults: true, Verdicts: false, DevErrors: true, Injections: false,
+var conv = Profile{Targets: 2, Sets: 5, Faults: true, Verdicts: true, DevErrors: true, Injections: false,
 	Rollbacks: true, Serializable: false, Persistent: false, Deletes: true, MaxSteps: 150, Drain: true, CleanPct: 75, Inter: true}
 
 // C04: histories with device/connection faults, driven to the fixed point with everything connected.
